@@ -26,6 +26,21 @@ def fmtData (d : ProblemData Float) : String :=
   | some p => base ++ " " ++ fmtState p
   | none => base
 
+/-- prefix every token of a response line (two data records in one response) -/
+def prefixTokens (p : String) (line : String) : String :=
+  " ".intercalate (((line.splitOn " ").filter (· ≠ "")).map (p ++ ·))
+
+/-- `presolve.hand_reduced`: keep flags on the collapsed list, the hand reduction of the user's
+data (`handReduce` on the ORIGINAL cone list), `new` (presolve on) of the user's problem and
+`new` (presolve off) of the hand-reduced problem. -/
+def runHandReduced (P : Csc Float) (q : Array Float) (A : Csc Float) (b : Array Float)
+    (cones : List (ConeT Float)) (inf : Float) : MErr String := do
+  let full ← ProblemData.new P q A b cones true false inf
+  let keep ← keepFlags (threshold inf) (Cones.newCollapsed cones) b.toList
+  let (A', b', cones') ← handReduce keep A b cones
+  let red ← ProblemData.new P q A' b' cones' false false inf
+  pure s!"keep={fmtBools keep.toArray} {fmtCscP "hA" A'} hb={fmtFloats b'} hcones={fmtCones cones'} {prefixTokens "f." (fmtData full)} {prefixTokens "r." (fmtData red)}"
+
 def parseOps (s : String) : Option (List (InfOp Float)) :=
   ((s.splitOn ";").filter (· ≠ "")).mapM (fun tok =>
     if tok == "d" then some .default
@@ -95,8 +110,13 @@ def handleC09 (ch : String) (kv : KV) : String :=
   | "problemdata.new" =>
     match kv.csc "P", kv.floats "q", kv.csc "A", kv.floats "b", kv.cones "cones", kv.nat "presolve", kv.float "inf" with
     | some P, some q, some A, some b, some cs, some pre, some inf =>
-      fmtME fmtData (ProblemData.new P q A b cs (pre != 0) false inf)
+      -- optional key `chordal` (0/1, absent = 0): `chordal_decomposition_enable`
+      fmtME fmtData (ProblemData.new P q A b cs (pre != 0) ((kv.nat "chordal").getD 0 != 0) inf)
     | _, _, _, _, _, _, _ => "bad-request"
+  | "presolve.hand_reduced" =>
+    match kv.csc "P", kv.floats "q", kv.csc "A", kv.floats "b", kv.cones "cones", kv.float "inf" with
+    | some P, some q, some A, some b, some cs, some inf => fmtME id (runHandReduced P q A b cs inf)
+    | _, _, _, _, _, _ => "bad-request"
   | "infbound.history" =>
     match kv.csc "P", kv.floats "q", kv.csc "A", kv.floats "b", kv.cones "cones", (kv.str "ops").bind parseOps with
     | some P, some q, some A, some b, some cs, some ops => fmtME id (runHistory P q A b cs ops)
